@@ -262,7 +262,12 @@ impl FsCommand {
     fn move_copy(source: &Path, target: &Path) -> io::Result<()> {
         Self::check_can_rename(source, target)?;
         Self::mkdirs(target.parent().unwrap())?;
-        Self::unsafe_copy(source, target)?;
+        if let Err(e) = Self::unsafe_copy(source, target) {
+            // The target didn't exist before. Don't leave an incomplete copy behind,
+            // it would look like the moved file and block moving the file again.
+            let _ = fs::remove_file(target.to_path_buf());
+            return Err(e);
+        }
         Self::remove(source)?;
         Ok(())
     }
